@@ -92,6 +92,8 @@ pub enum Act {
     Reply(Vec<u8>),
     /// sleep (virtual ms), then send
     DelayReply(u64, Vec<u8>),
+    /// after the delay, reply with the most recent PING value seen on the pool
+    DelayLatest(u64),
     Close(&'static str),
     Silent,
 }
@@ -373,6 +375,7 @@ impl World {
                         None => (Act::Reply(bulk("-1")), Some("wrong_echo")),
                     },
                     Reply::WrongEcho => (Act::Reply(bulk(&format!("x{n}"))), Some("wrong_echo")),
+                    Reply::ConcurrentEcho => (Act::DelayLatest(20), Some("slow_reply")),
                     Reply::Pong => (Act::Reply(b"+PONG\r\n".to_vec()), Some("pong_reply")),
                     Reply::IntEcho => {
                         if n.parse::<i64>().is_ok() {
@@ -403,6 +406,8 @@ impl World {
                         None => false,
                     },
                     Act::Close(_) | Act::Silent => true,
+                    // judged when the reply is written (resolve_latest)
+                    Act::DelayLatest(_) => false,
                 };
                 let reply = match &act {
                     Act::Reply(b) => Some(printable(b)),
@@ -411,7 +416,7 @@ impl World {
                 };
                 let value_exact = match &act {
                     Act::Reply(b) => *b == exact || *b == int_echo,
-                    Act::DelayReply(..) => true,
+                    Act::DelayReply(..) | Act::DelayLatest(..) => true,
                     _ => false,
                 };
                 {
@@ -449,6 +454,20 @@ impl World {
             }
             _ => Act::Reply(b"-ERR unknown command\r\n".to_vec()),
         }
+    }
+
+    /// The delayed reply of a `ConcurrentEcho` recycle is due: it carries the most recent PING
+    /// value seen on the pool. If another recycle started meanwhile that is a wrong echo.
+    fn resolve_latest(&mut self, id: i64) -> Vec<u8> {
+        let latest = self.pings.last().cloned().unwrap_or_default();
+        let mine = self.conn(id).and_then(|c| c.rec.as_ref().map(|r| r.n.clone())).unwrap_or_default();
+        if latest != mine {
+            if let Some(r) = self.conn(id).and_then(|c| c.rec.as_mut()) {
+                r.value_exact = false;
+            }
+            self.doom(id, "echo_of_concurrent_ping");
+        }
+        bulk(&latest)
     }
 
     fn on_reply_sent(&mut self, id: i64, bytes: &[u8], delayed: bool) {
@@ -791,11 +810,14 @@ impl World {
         }
         for (id, killed) in vanished {
             if id < 0 {
-                self.harness_error(
-                    "pooled_vanished",
-                    format!("conn#{} is healthy and pooled according to the model but not idle in the pool; {view}", -id),
-                );
-                return view;
+                // The pool let go of a connection although its recycle had been answered
+                // correctly. C17 does not forbid that (it only demands that badly answered
+                // connections are discarded), so the model follows the pool and counts it.
+                self.probe("healthy_connection_discarded");
+                if let Some(c) = self.conn(-id) {
+                    c.state = CState::Gone;
+                }
+                continue;
             }
             if killed {
                 // the idle disconnect was actually met by a recycle
@@ -903,6 +925,15 @@ async fn serve(id: i64, mut s: DuplexStream, kill: Arc<Notify>) {
                 }
                 Act::DelayReply(ms, bytes) => {
                     tokio::time::sleep(Duration::from_millis(ms)).await;
+                    if s.write_all(&bytes).await.is_err() {
+                        w(|w| w.on_closed(id, "delayed reply not delivered, client gone"));
+                        return;
+                    }
+                    w(|w| w.on_reply_sent(id, &bytes, true));
+                }
+                Act::DelayLatest(ms) => {
+                    tokio::time::sleep(Duration::from_millis(ms)).await;
+                    let bytes = w(|w| w.resolve_latest(id));
                     if s.write_all(&bytes).await.is_err() {
                         w(|w| w.on_closed(id, "delayed reply not delivered, client gone"));
                         return;
